@@ -220,6 +220,19 @@ def build_unit(u, tmp, log):
     if rc != 0:
         return None, 'goto-cc failed: ' + (err + out)[-1500:]
     cur = gb
+    if u.get('restrict_fp'):
+        # each listed indirect call may only target the listed functions; goto-instrument
+        # adds an assertion that the pointer is one of them (checked like any obligation)
+        nxt = os.path.join(tmp, 'u.f.gb')
+        cmd = ['goto-instrument']
+        for r in u['restrict_fp']:
+            cmd += ['--restrict-function-pointer', r]
+        cmd += [cur, nxt]
+        log['cmds'].append(' '.join(cmd))
+        rc, out, err, dt = sh(cmd, timeout=120)
+        if rc != 0:
+            return None, 'goto-instrument --restrict-function-pointer failed: ' + (err + out)[-1500:]
+        cur = nxt
     if u['replace_calls']:
         nxt = os.path.join(tmp, 'u.r.gb')
         cmd = ['goto-instrument']
